@@ -157,6 +157,21 @@ func (r *Reporter) Elapsed() float64 { return time.Since(r.start).Seconds() }
 func (r *Reporter) Finish() int {
 	r.mu.Lock()
 	defer r.mu.Unlock()
+	if key := os.Getenv("VERIF_REPLAY_KEY"); key != "" {
+		// replay of one recorded case by re-enumeration: only this case is judged, nothing is written
+		n := 0
+		for _, v := range r.violations {
+			if v.Key == key {
+				n++
+				fmt.Printf("REPLAYED symptom=%s key=%s\n  %s\n", v.Symptom, trunc(v.Key, 400), trunc(v.Msg, 2400))
+			}
+		}
+		if n == 0 {
+			fmt.Printf("replay: the case %q was enumerated again by the %s tier and no longer fails (or is no longer part of this tier)\n", trunc(key, 400), r.Tier)
+			return 0
+		}
+		return 1
+	}
 	ids := make([]string, 0, len(r.knownHits))
 	for id := range r.knownHits {
 		ids = append(ids, id)
